@@ -148,8 +148,15 @@ def main():
     # stage 3: second chance.  Solver budgets are wall-clock, and stages 1-2 keep all cores busy; an obligation or canary
     # that ran out of time there is tried once more, alone on the machine and with a longer budget, before it is
     # called undecided.  (Only `unknown` answers are retried - never a refutation.)
+    # (not when a violation is already on the table - a refuted obligation or a failing native run: the retries could
+    # only turn "undecided" into "discharged", which would not change the verdict)
+    _known = load_known()
+    already = any(o["kind"] == "obligation" and o["status"] == "refuted" and matches_known(_known, a.prop, "obligation", o["name"], None) is None
+                  for r in results for o in r.get("results", [])) or bool(
+        native and (native.get("hang") or any(matches_known(_known, a.prop, "native", f.get("violated"), f.get("inputs")) is None
+                                              for f in native.get("failures", []))))
     for r in list(results):
-        if r.get("crash") or r.get("mode") != "prove":
+        if already or r.get("crash") or r.get("mode") != "prove":
             continue
         names = {o["name"] for o in r.get("results", []) if o["kind"] == "obligation" and o["status"] == "undecided"}
         if not names:
@@ -167,6 +174,8 @@ def main():
             if o["kind"] == "canary" and not o["name"].endswith("/canary.normal_return_reachable"):
                 seen_can[o["name"]] = seen_can.get(o["name"]) == "refuted" and "refuted" or o["status"]
     for cid in sorted(canary_contracts):
+        if already:
+            break
         if any(n.startswith(cid + "/canary.") and st_ != "refuted" for n, st_ in seen_can.items()):
             for b in bounds:
                 results.append(run_worker(mods, cid, "refute:%d:%d" % (b, cfg.get("unroll", 4)), tmo * 3, set()))
@@ -376,7 +385,17 @@ def conclude(a, cfg, tier, seed, results, native, t0):
         lines.append("VIOLATION property=%s replay=%s" % (prop, path))
     if not lines:
         # refuted obligations whose model did not replay natively
-        base_unconf = [v for v in unconfirmed if v["in_baseline"]]
+        # a counterexample that WAS replayed and on which the real code behaves as the property demands is evidence that
+        # the refutation is an artefact of the abstraction (a contract or stub weaker than the changed code needs): the
+        # proof is broken, but no violation is shown -> undecided.  Only a refutation that could not be replayed at all
+        # (no input mapping for that contract) is reported without a failing input.
+        passed = [v for v in unconfirmed if v["in_baseline"] and v.get("replayed") is False
+                  and not (isinstance(v.get("native"), dict) and (v["native"].get("crash") or v["native"].get("hang")))]
+        for v in passed:
+            undecided.append({"contract": v["contract"], "obligation": v["name"],
+                              "reason": "refuted by the solver (%s) but its counterexample, replayed on the real code, satisfies the "
+                                        "property: proof broken, no violation shown" % v["mode"]})
+        base_unconf = [v for v in unconfirmed if v["in_baseline"] and v not in passed]
         for v in base_unconf[:3]:
             n += 1
             path = write_replay(n, {"property": prop, "source": "obligation discharged on the reference tree is now refuted; "
